@@ -138,9 +138,9 @@ func checkTempTrieN(res *lib.Result, n int) {
 			}
 			m[fmt.Sprintf("%x", i)] = vals[i]
 		}
-		hf := crypto.Pedersen
+		hf := crypto.HashFn(indPedersen)
 		if pos {
-			hf = crypto.Poseidon
+			hf = indPoseidon
 		}
 		want := specRoot(m, 64, hf)
 		var a, b felt.Felt
@@ -158,6 +158,19 @@ func checkTempTrieN(res *lib.Result, n int) {
 		switch {
 		case err != nil:
 			violateOnce(res, "temp-trie-error", func() lib.Violation { return lib.Violation{Sig: "temp-trie-error", What: err.Error(), Replay: rep} })
+		case (!a.Equal(&want) || !b.Equal(&want)) && func() bool {
+			jf := crypto.HashFn(crypto.Pedersen)
+			if pos {
+				jf = crypto.Poseidon
+			}
+			j := specRoot(m, 64, jf)
+			return a.Equal(&j) && b.Equal(&j)
+		}():
+			k := "ped"
+			if pos {
+				k = "pos"
+			}
+			reportPrimitiveInside(res, k, rep, a.String(), want.String())
 		case !a.Equal(&want):
 			violateOnce(res, "temp-trie2-root-differs-from-commitment-of-map", func() lib.Violation { return lib.Violation{Sig: "temp-trie2-root-differs-from-commitment-of-map",
 				What: fmt.Sprintf("core.TrieBackend n=%d poseidon=%v: %s, expected %s", n, pos, a.String(), want.String()), Replay: rep} })
@@ -195,3 +208,6 @@ func violateOnce(res *lib.Result, sig string, mk func() lib.Violation) {
 	}
 	res.Violate(mk())
 }
+
+func timeNow() time.Time          { return time.Now() }
+func msSince(t time.Time) int     { return int(time.Since(t).Milliseconds()) }
